@@ -64,7 +64,7 @@ func genC05C(t *rapid.T) c05cCase {
 	}
 	c.Cycles = rapid.IntRange(12, 40).Draw(t, "cycles")
 	c.Order = rapid.Permutation(seq(c.Workers)).Draw(t, "order")
-	c.Yields = yieldList(rapid.SliceOfN(rapid.SampledFrom([]uint8{0, 0, 0, 1, 1, 2, 3, 6}), 0, 200).Draw(t, "yields"))
+	c.Yields = yieldList(rapid.SliceOfN(rapid.SampledFrom([]uint8{0, 0, 0, 0, 1, 1, 2, 3, 6, 40}), 0, 200).Draw(t, "yields")) // 40: long enough for the other workers to complete a whole further window
 	return c
 }
 
